@@ -37,8 +37,10 @@ ERR_OBJS = [
     {"message": "m3", "path": ["a", 0, "b"]},
     {"message": "m4", "extensions": {"code": "X", "n": 1}},
     {"message": "m5", "locations": [{"line": 3, "column": 4}], "path": ["q"], "extensions": {}, "other": 1},
+    # serialisers that write absent members as explicit nulls
+    {"message": "m6", "locations": None, "path": None, "extensions": None},
 ]
-ERRS = [[ERR_OBJS[0]], [ERR_OBJS[1], ERR_OBJS[2]], [ERR_OBJS[3], ERR_OBJS[4], ERR_OBJS[0]]]
+ERRS = [[ERR_OBJS[0]], [ERR_OBJS[1], ERR_OBJS[2]], [ERR_OBJS[3], ERR_OBJS[4], ERR_OBJS[0]], [ERR_OBJS[5]], [ERR_OBJS[3], ERR_OBJS[5]]]
 
 
 def body_table():
@@ -66,7 +68,7 @@ def body_table():
     add("errors_empty", {"errors": []})
     for i, e in enumerate(ERRS):
         add(f"errors{i}", {"errors": e})
-        add(f"data+errors{i}", {"data": DATAS[i], "errors": e})
+        add(f"data+errors{i}", {"data": DATAS[i % len(DATAS)], "errors": e})
         add(f"data_null+errors{i}", {"data": None, "errors": e})
     add("data+errors_empty", {"data": DATAS[0], "errors": []})
     return out
@@ -163,6 +165,9 @@ def _drawn(draw):
                 e["path"] = [draw(st.one_of(st.integers(0, 5), st.text(max_size=4))) for _ in range(d.int(0, 3))]
             if d.bool(0.5):
                 e["extensions"] = draw(st.dictionaries(st.text(max_size=4), JSON_VAL, max_size=2))
+            for member in ("locations", "path", "extensions"):
+                if member not in e and d.bool(0.15):
+                    e[member] = None  # explicit null instead of an absent member
             errs.append(e)
         body["errors"] = errs
     if d.bool(0.3):
